@@ -37,7 +37,7 @@ TEMPLATES = {
     "keyword-name": "lambda e: (e.met(1, {B}=2), 0)",
     "attribute-name": "lambda e: (e.{B}, 0)",
 }
-SOURCES = ("closure", "global", "class", "nested-class", "module")
+SOURCES = ("closure", "closure-over-global", "global", "class", "nested-class", "module")
 
 _N = [0]
 
@@ -45,7 +45,7 @@ _N = [0]
 def module_for(source, template, name, value, op="Select"):
     """generated module text: a build(ds) function that calls ds.<op>(<lambda>) with the lambda inline,
     one lambda per line.  The captured name is `name`."""
-    use = {"closure": name, "global": name, "class": f"K.{name}", "nested-class": f"K.I.{name}",
+    use = {"closure": name, "closure-over-global": name, "global": name, "class": f"K.{name}", "nested-class": f"K.I.{name}",
            "module": f"cmod.{name}"}[source]
     lam = TEMPLATES[template].format(N=use, B=name)
     head = ""
@@ -57,7 +57,9 @@ def module_for(source, template, name, value, op="Select"):
         head = f"class K:\n    class I:\n        {name} = VALUE\n"
     elif source == "module":
         head = "import fadlmc_c04_cmod as cmod\n"
-    if source == "closure":
+    if source == "closure-over-global":
+        head = f"{name} = 'the module global of the same name'\n"
+    if source in ("closure", "closure-over-global"):
         body = f"def build(ds, {name}=None):\n    {name} = VALUE\n    return ds.{op}(\n        {lam}\n    )\n"
     else:
         body = f"def build(ds):\n    return ds.{op}(\n        {lam}\n    )\n"
@@ -107,12 +109,12 @@ class C04(Check):
                 for tname in TEMPLATES:
                     for vname in VALUES:
                         for name in (("v", "j") if Q else ("v", "j", "t", "a", "pt")):
-                            if "{N}" not in TEMPLATES[tname] and source not in ("closure", "global"):
+                            if "{N}" not in TEMPLATES[tname] and source not in ("closure", "closure-over-global", "global"):
                                 continue  # a bound spelling can only collide with a bare (closure/global) name
                             if name in ("j", "t") and "{B}" not in TEMPLATES[tname] and \
-                                    f"lambda {name}" in TEMPLATES[tname] and source in ("closure", "global"):
+                                    f"lambda {name}" in TEMPLATES[tname] and source in ("closure", "closure-over-global", "global"):
                                 continue  # the template itself binds that name around the use: not a capture
-                            if tname == "comp-iter-same-name" and (source not in ("closure", "global") or
+                            if tname == "comp-iter-same-name" and (source not in ("closure", "closure-over-global", "global") or
                                                                    vname not in ("list", "tuple", "dict", "set")):
                                 continue  # only a real collection can be iterated; it must then be refused
                             if tname == "attribute-name" and name not in ("a", "b", "v", "j"):
@@ -149,7 +151,7 @@ class C04(Check):
                 return a
 
         uses_value = "{N}" in TEMPLATES[tname]
-        if uses_value and source in ("closure", "global") and tname != "comp-iter-same-name" and \
+        if uses_value and source in ("closure", "closure-over-global", "global") and tname != "comp-iter-same-name" and \
                 name not in refsem.free_names(ast.parse(lam_src, mode="eval").body):
             return {"n": 0, "nt": [], "oc": ["skipped: the shape itself binds that name"], "tags": {}, "viol": []}
         transportable = isinstance(value, LEGAL)
@@ -176,7 +178,7 @@ class C04(Check):
             return res
         # original callable, as Python runs it (bindings as they were at the call)
         orig = eval(compile(ast.parse(lam_src, mode="eval"), "<orig>", "eval"),
-                    dict(g, **({name: value} if source == "closure" else {}), cmod=sys.modules["fadlmc_c04_cmod"]))
+                    dict(g, **({name: value} if source in ("closure", "closure-over-global") else {}), cmod=sys.modules["fadlmc_c04_cmod"]))
         try:
             fq = refsem.compile_query(ast.Call(ast.Name("Select", ast.Load()), [ast.Name("ds", ast.Load()), emitted], []),
                                       extra_env={"list": list})
